@@ -191,10 +191,23 @@ func c19IntCmp(a, b string) (int, error) {
 
 // ---------------------------------------------------------------- Impl
 
+// c19Desc: the description a capability is created with. The description is documented as optional and not
+// used by the package, so capabilities of one target may share one or have none: by the shape of the case,
+// all distinct / all the same / all empty.
+func c19Desc(i int, v string, n int) string {
+	switch (len(v) + n) % 3 {
+	case 0:
+		return "cap" + strconv.Itoa(i)
+	case 1:
+		return "capability"
+	}
+	return ""
+}
+
 func c19Has(cmp capability.VersionComparer, v string, capStrs [][]string) string {
 	caps := make([]*capability.Capability, len(capStrs))
 	for i, ss := range capStrs {
-		caps[i] = capability.NewCapability("cap"+strconv.Itoa(i), ss...)
+		caps[i] = capability.NewCapability(c19Desc(i, v, len(capStrs)), ss...)
 	}
 	t := capability.Target{VersionComparer: cmp, Capabilities: caps}
 	ver, err := t.Version(v)
@@ -228,7 +241,7 @@ func c19Has(cmp capability.VersionComparer, v string, capStrs [][]string) string
 func c19HasAgain(cmp capability.VersionComparer, v string, capStrs [][]string) string {
 	caps := make([]*capability.Capability, len(capStrs))
 	for i := range capStrs {
-		caps[i] = capability.NewCapability("cap"+strconv.Itoa(i), v, "")
+		caps[i] = capability.NewCapability(c19Desc(i, v, len(capStrs)), v, "")
 	}
 	t := capability.Target{VersionComparer: cmp, Capabilities: caps}
 	ver, err := t.Version(v)
